@@ -3,12 +3,12 @@
 //! Every case is one package run through the REAL build + fast check: the spec
 //! corpus (tests/specs/graph/fast_check, tests/specs/graph/jsr) first, then
 //! generated packages (80 % structured, 20 % adversarial).  Each emitted module
-//! is re-parsed with deno_ast and summarised (fcheck/sum.rs); the extracted,
+//! is re-parsed with deno_ast and summarised (fcx/sum.rs); the extracted,
 //! proved decision procedure `erasedb` judges the summary.  The harness prints
 //! `1` for the judgement, so a real output that is not erased is a mismatch on
 //! the judgement flag with a replayable input.
 use crate::common::*;
-use crate::fcheck::*;
+use crate::fcx::*;
 use crate::rng::Rng;
 use crate::sexp::Sx;
 
